@@ -165,7 +165,8 @@ def blocks(tier, seed):
             perms = [ident, ident[::-1]] + ([] if q else [ident[i:] + ident[:i] for i in range(1, n)])
             perms = list(dict.fromkeys(perms))
         for m in range(0, n + 1):
-            for perm in (perms if not (q and n == 4 and m == 4) else perms[:1]):
+            # the largest blocks (m = n at the top n) are run under the identity key order only
+            for perm in (perms if not ((q and n == 4 and m == 4) or (not q and n == 5 and m >= 4)) else perms[:1 if m == n else 2]):
                 if m == 0:
                     cases.append((n, m, perm, None))
                 else:
